@@ -262,6 +262,9 @@ def main(tier=None):
     t0 = time.time()
     st = generic_bfs(ck, b['vx'], [('np2', M(2))], alphabet_for(2, small=not thorough), make_emit(2), make_step(2), maxdepth=4 if thorough else 3, np=2, deadline=t0 + (900 if thorough else 150), batch=80)
     states, trans = st['states'], st['transitions']
+    if not thorough:
+        s4 = generic_bfs(ck, b['vx'], [('np2-ina', M(2))], alphabet_for(2, small=True), make_emit(2, hints='nc_num_aggrs_per_node=1'), make_step(2), maxdepth=2, np=2, deadline=time.time() + 120, batch=80, name='C05ina')
+        states += s4['states']; trans += s4['transitions']
     if thorough:
         s3 = generic_bfs(ck, b['vx'], [('np3', M(3))], alphabet_for(3, small=True), make_emit(3), make_step(3), maxdepth=3, np=3, deadline=time.time() + 600, batch=60)
         s4 = generic_bfs(ck, b['vx'], [('np2-ina', M(2))], alphabet_for(2, small=True), make_emit(2, hints='nc_num_aggrs_per_node=1'), make_step(2), maxdepth=3, np=2, deadline=time.time() + 400, batch=80, name='C05ina')
